@@ -22,11 +22,15 @@ fn gen_case(cur: &mut Cursor) -> Value {
     };
     let n = 4 + cur.below(60);
     let walk: Vec<u8> = (0..n).map(|_| cur.u8()).collect();
-    let custom = match cur.below(5) {
+    // any start number for which start + game length still fits in usize is fair game
+    let custom = match cur.below(8) {
         0 => 0u64,
         1 => 1,
         2 => cur.u16() as u64,
         3 => u32::MAX as u64,
+        4 => (1u64 << 63) - 1 + cur.below(3) as u64,
+        5 => u64::MAX - 70_000 - cur.u16() as u64,
+        6 => cur.u64() >> cur.below(40),
         _ => cur.below(200) as u64,
     };
     c["final_outcome"] = outcome;
@@ -224,8 +228,10 @@ pub fn property() -> Property {
                2 status policies equals a string assembled independently (N. before White's moves, N... if Black starts, numbers \
                continuing from the start/custom number, final 1-0|0-1|1/2-1/2|* iff Show; per-move tokens from mv.styled on replayed \
                positions, whose correctness is C09's job). Non-trivial = walker script with a direction change after a jump, or a chain \
-               that starts with Black; distinct by case.",
-        assumptions: &["NumberPolicy::Custom(n) generated with n <= 2^32 (beyond that usize arithmetic itself overflows; no property speaks about it)"],
+               that starts with Black; distinct by case. long_chain: three chains of 65,541-70,003 plies (more than 16 bits of plies) \
+               built from a reversible 4-ply cycle: walker from both ends across the 2^16 boundary and a full forward pass against the \
+               model, UCI text, and popping everything.",
+        assumptions: &["NumberPolicy::Custom(n) is generated over the whole range for which n + game length fits in usize (including values around 2^63 and near usize::MAX); beyond that usize arithmetic itself overflows and no property speaks about it"],
         subchecks: vec![SubCheck {
             name: "walk_and_print",
             driver: Driver::Generated { gen: gen_case, genome_len: 512, quick: 120_000, thorough: 2_500_000 },
@@ -236,6 +242,19 @@ pub fn property() -> Property {
                 r#"{"fen":"7k/8/8/8/8/8/8/K7 b - - 65535 65535","src":"regression_D3","ops":[["push_legal",0,0],["push_legal",0,0],["push_legal",0,0]],"final_outcome":null,"walk":[0,0,0,3,3,7,3],"custom_number":5}"#,
             ],
             exhaustive: false,
+        },
+        SubCheck {
+            name: "long_chain",
+            driver: Driver::Custom { run: long_chain_run },
+            check: long_chain_check,
+            configs: Configs::ReleaseOnly,
+            required: &["long_chain"],
+            regressions: &[],
+            exhaustive: false,
         }],
     }
+}
+
+fn long_chain_run(ctx: &RunCtx, stats: &mut Stats, rep: &mut Reporter) {
+    long_chain_driver("C17")(ctx, stats, rep)
 }
